@@ -102,8 +102,35 @@ def serveJudge (f : List String) (out : String) : String :=
     | _, _, _ => "bad:unparsable:" ++ out
   | _, _ => "bad:unparsable:" ++ out
 
+/-- c12.live: the response as an HTTP client sees it (one response head per request by
+framing; a response never committed is net/http's implicit 200) -/
+def liveModel (f : List String) : String :=
+  match parseCase f with
+  | none => "bad-case"
+  | some c =>
+    let r := serve c.cfg c.req c.inner
+    s!"{if r.status = 0 then 200 else r.status} {showBody r.body} ok ok"
+
+def liveJudge (f : List String) (out : String) : String :=
+  if (out.splitOn "ERR:").length > 1 then "bad:not-contained:the client did not get a complete response"
+  else if (out.splitOn "other:").length > 1 then "bad:body:the body contains bytes that are neither the handler's nor a known error page"
+  else if (out.splitOn "X:").length > 1 then "bad:body:the body is not decodable under its Content-Encoding"
+  else
+  match parseCase f, out.splitOn " " with
+  | some c, [st, body, f1, f2] =>
+    match st.toNat?, parseBody body with
+    | some st, some body =>
+      let v := verdict (effectiveErrors c.cfg) c.inner { commits := 1, status := st, body := body }
+      if v != "ok" then v
+      else if f1 != "ok" then "bad:not-contained:the connection did not serve the next request"
+      else if f2 != "ok" then "bad:not-contained:the server did not serve a new connection"
+      else "ok"
+    | _, _ => "bad:unparsable:" ++ out
+  | _, _ => "bad:unparsable:" ++ out
+
 def streams : List Driver.Stream := [
-  { name := "c12.serve", model := serveModel, judge := serveJudge }
+  { name := "c12.serve", model := serveModel, judge := serveJudge },
+  { name := "c12.live", model := liveModel, judge := liveJudge }
 ]
 
 end Driver.C12
